@@ -3,6 +3,7 @@ import Csproto.Bridge.Facts
 import Csproto.Bridge.WireFuncs
 import Csproto.Bridge.WireFuncs2
 import Csproto.Bridge.DecoderFuncs
+import Csproto.Bridge.EncoderFuncs
 /- axiom audit for C02 -/
 open Csproto
 #print axioms canon_encVarint
@@ -50,3 +51,12 @@ open Csproto
 #print axioms Csproto.Bridge.DecoderFuncs.DecodeFixed64_refines
 #print axioms Csproto.Bridge.DecoderFuncs.Offset_refines
 #print axioms Csproto.Bridge.DecoderFuncs.Reset_refines
+
+-- Encoder METHODS translated from encoder.go refine Enc.step (same buffer, same cursor, panic iff the buffer is short): Bridge/EncoderFuncs.lean
+#print axioms Csproto.Bridge.EncoderFuncs.EncodeUInt64_refines
+#print axioms Csproto.Bridge.EncoderFuncs.EncodeInt64_refines
+#print axioms Csproto.Bridge.EncoderFuncs.EncodeUInt32_refines
+#print axioms Csproto.Bridge.EncoderFuncs.EncodeInt32_refines
+#print axioms Csproto.Bridge.EncoderFuncs.EncodeSInt64_refines
+#print axioms Csproto.Bridge.EncoderFuncs.EncodeSInt32_refines
+#print axioms Csproto.Bridge.EncoderFuncs.writeAt_writeAt
